@@ -638,9 +638,64 @@ fn part_b_payloads(ctx: &Ctx, rep: &mut Report) {
     );
 }
 
+fn part_b_many(ctx: &Ctx, rep: &mut Report) {
+    // B9: four, five and six options over small (delta, length) alphabets - complete products
+    {
+        let d4: [usize; 4] = [0, 1, 13, 269];
+        let l4: [usize; 4] = [0, 1, 13, 269];
+        let radices = [16u64, 16, 16, 16, 2];
+        let n = product(&radices);
+        ctx.family(rep, "B9-four-options", "four options: (delta, length) in {0,1,13,269}^2 for every option (complete product) x payload {none, [FF 00]}", n, true, |i, rep| {
+            let d = decode(i, &radices);
+            let mut num = 0usize;
+            let mut opts = Vec::new();
+            for k in 0..4 {
+                num += d4[(d[k] / 4) as usize];
+                opts.push((num as u32, pattern(l4[(d[k] % 4) as usize], k as u8 + 3)));
+            }
+            let m = RefMsg { version: 1, mtype: 0, token: vec![5, 6, 7], code: 0x02, mid: 0x0A0B, options: opts, payload: if d[4] == 1 { vec![0xFF, 0] } else { vec![] } };
+            run_case("B9-four-options", i, n, &m, ctx, rep);
+        });
+        let radices = [6u64, 6, 6, 6, 6, 6, 2];
+        let n = product(&radices);
+        let dl: [(usize, usize); 6] = [(0, 0), (0, 13), (1, 1), (13, 0), (13, 269), (269, 13)];
+        ctx.family(rep, "B9-six-options", "six options, each (delta, length) over {(0,0),(0,13),(1,1),(13,0),(13,269),(269,13)} (complete product) x token {0, 8 bytes}", n, true, |i, rep| {
+            let d = decode(i, &radices);
+            let mut num = 0usize;
+            let mut opts = Vec::new();
+            for k in 0..6 {
+                let (dd, ll) = dl[d[k] as usize];
+                num += dd;
+                opts.push((num as u32, pattern(ll, k as u8 + 9)));
+            }
+            let m = RefMsg { version: 1, mtype: 1, token: if d[6] == 1 { pattern(8, 2) } else { vec![] }, code: 0x45, mid: 7, options: opts, payload: vec![1] };
+            run_case("B9-six-options", i, n, &m, ctx, rep);
+        });
+    }
+    // B10: byte values - every byte value as the content of option values, token and payload
+    {
+        let radices = [256u64, 4, 3];
+        let n = product(&radices);
+        let lens = [1usize, 2, 13, 14];
+        ctx.family(rep, "B10-byte-values", "every byte value b: an option value / the token / the payload consisting only of b, lengths {1,2,13,14} (token: up to 8), next to a second option and a payload", n, true, |i, rep| {
+            let d = decode(i, &radices);
+            let b = d[0] as u8;
+            let len = lens[d[1] as usize];
+            let fill = vec![b; len];
+            let m = match d[2] {
+                0 => RefMsg { version: 1, mtype: 0, token: vec![1], code: 1, mid: b as u16 * 257, options: vec![(11, fill), (12, vec![b])], payload: vec![2] },
+                1 => RefMsg { version: 1, mtype: 0, token: vec![b; len.min(8)], code: 1, mid: 3, options: vec![(11, vec![9])], payload: vec![] },
+                _ => RefMsg { version: 1, mtype: 0, token: vec![], code: 0x45, mid: 3, options: vec![(b as u32, vec![])], payload: fill },
+            };
+            run_case("B10-byte-values", i, n, &m, ctx, rep);
+        });
+    }
+}
+
 pub fn run(ctx: &Ctx, rep: &mut Report) {
     part_a(ctx, rep);
     part_b_payloads(ctx, rep);
+    part_b_many(ctx, rep);
     part_b(ctx, rep);
     rep.note("max_size", Packet::MAX_SIZE);
     rep.assume("refmodel::codec (RFC 7252 section 3 encoder/parser written from the RFC text) is the trusted reference");
